@@ -230,6 +230,33 @@ let do_nm args = match args with
   | ["E"; t] -> (match K.en_get_name (zs t) with Some n -> "ok " ^ string_of_coq n | None -> "err")
   | _ -> "badcase"
 
+(* ---- transform sequence (C13):  sq <dcap> <dcap2> ; K:k:m ... ; b1 b2 ...  ---- *)
+let csv_of (l : K.n list) =
+  if l = [] then "-" else String.concat "," (List.map sn l)
+let do_sq line =
+  match split_on_semis line with
+  | ["sq"; dcap; dcap2] :: stages :: data :: _ ->
+    let kind s = match String.split_on_char ':' s with
+      | [k; a; m] ->
+        let a = nat_of_int (int_of_string a) and m = ns m in
+        (match k with "T" -> K.KTag (a, m) | "S" -> K.KStrip (a, m) | "R" -> K.KRev | "L" -> K.KLie (a, m) | _ -> K.KDecline)
+      | _ -> K.KDecline in
+    let ts = List.map (fun s -> K.mk_stage (kind s)) stages in
+    let src = List.map ns (List.filter (fun s -> s <> "-") data) in
+    (match K.seq_forward ts src (nat_of_int (int_of_string dcap)) with
+     | K.FNothing -> "F:nothing"
+     | K.FTooSmall -> "F:small"
+     | K.FLost (skip, len) -> Printf.sprintf "F:lost:%s:%d" (sn skip) (int_of_nat len)
+     | K.FOk (skip, out) ->
+       let f = Printf.sprintf "F:ok:%s:%s" (sn skip) (csv_of out) in
+       if out = [] then f else
+       (match K.seq_inverse ts out (nat_of_int (int_of_string dcap2)) skip with
+        | K.INothing -> f ^ " I:nothing"
+        | K.IErr -> f ^ " I:err"
+        | K.ITrunc len -> f ^ Printf.sprintf " I:trunc:%d" (int_of_nat len)
+        | K.IOk o -> f ^ " I:ok:" ^ csv_of o))
+  | _ -> "badcase"
+
 let dispatch line =
   match words line with
   | [] -> ""
@@ -239,6 +266,7 @@ let dispatch line =
   | "wr" :: _ -> do_wr line
   | "rd" :: _ -> do_rd line
   | "nm" :: args -> do_nm args
+  | "sq" :: _ -> do_sq line
   | k :: _ -> "unknown " ^ k
 
 let () =
